@@ -1,8 +1,8 @@
 #!/bin/bash
-# usage: collect.sh bn|r2 Cxx
+# usage: collect.sh bn|b2|r2|r3|r4 Cxx
 kind=$1; pid=$2
 src=/tmp/${kind}_$pid/SEED
-if [ "$kind" = bn ]; then dst=/verif/benign/$pid; else dst=/verif/seeded/$pid; fi
+if [ "$kind" = bn ] || [ "$kind" = b2 ]; then dst=/verif/benign/$pid; else dst=/verif/seeded/$pid; fi
 mkdir -p $dst
 for d in $src/*/; do n=$(basename $d); mkdir -p $dst/$n; cp $d/patch.diff $d/meta.json $dst/$n/ 2>/dev/null; cp $d/demo.py $dst/$n/ 2>/dev/null; cp $d/equiv.py $dst/$n/ 2>/dev/null; done
 ls $dst
